@@ -38,6 +38,20 @@ Theorem C11_leaf_pool : forall {T} (O : ord T) (zeroT : T) (p : list (hist T)) g
 Proof. exact @p_roll_expect. Qed.
 Print Assumptions C11_leaf_pool.
 
+(* filters may look at provenance - which source an outcome belongs to (RFilterBy is part of the syntax the
+   theorems above quantify over); a provenance-blind one is the value filter *)
+Theorem C11_provenance_blind_filter_is_value_filter : forall {T} (O : ord T) (zeroT : T) (addT : T -> T -> T)
+  (pred : T -> bool) (l : list (rtree (T:=T))),
+  denote O zeroT addT (RFilterBy (fun _ => pred) l) = denote O zeroT addT (RFilter pred l).
+Proof. exact @filterby_const_is_filter_denote. Qed.
+Print Assumptions C11_provenance_blind_filter_is_value_filter.
+(* two dice showing the same value, kept or dropped according to where they come from: sampling and enumeration *)
+Example C11_provenance_filter_nonvacuous :
+  let r := RFilterBy (fun i v => if Nat.eqb i 0 then Veqb v (qc 6 1) else Vleb (qc 4 1) v) [RVal (qc 5 1); RVal (qc 5 1)] in
+  snd (run (roll_v VO (qc 0 1) Qcanon.Qcplus r) []) = Some (Ok [None; Some (qc 5 1)]) /\
+  map fst (denote VO (qc 0 1) Qcanon.Qcplus r) = [Ok [None; Some (qc 5 1)]].
+Proof. split; vm_compute; reflexivity. Qed.
+
 (* non-vacuity: 2@d2 keep-highest, re-rolled once when it shows 2 (REPLACE): scripted run and enumeration *)
 Example C11_nonvacuous :
   let d2 := RH [(qc 1 1, 1%Z); (qc 2 1, 1%Z)] in
